@@ -219,8 +219,9 @@ def leak_scan(out, src_prefixes):
 
 def render(src, **cfg):
     from chameleon import PageTemplate
+    from vlib import routes, state
     try:
-        return PageTemplate(src, **cfg)(x='X<', c=1, sx='<i>S</i>')
+        return routes.make(PageTemplate, src, 6, state.CTX, **cfg)(x='X<', c=1, sx='<i>S</i>')
     except Exception as e:
         return 'RAISED %s: %s' % (type(e).__name__, str(e).split('\n')[0][:120])
 
